@@ -681,3 +681,84 @@ func ruleDFS(rule string) RuleFn {
 }
 
 var _ = types.Typ
+
+// ruleEdges (edge/runtime agreement, C05): the graph the cycle detector sees
+// is a superset of what resolution can pick.
+func ruleEdges(rule string) RuleFn {
+	return func(c *an.Ctx) {
+		c.Rule(rule, "X-edges (edge/runtime agreement): graphHolder.EdgesFrom and getParamOrder obtain providers only through the all-ancestors accessors (getAllValueProviders / getAllGroupProviders) of the holder's own scope gh.s - a superset of every provider that resolution in this view can pick through the per-scope accessors - report provider.Order(gh.s) for each without filtering, and a group parameter contributes its own node's order for gh.s; every constructor node and group node yields the edges of all of its parameters")
+		type spec struct{ fn string }
+		n := 0
+		for _, nm := range []string{"(*dig.graphHolder).EdgesFrom", "dig.getParamOrder"} {
+			fn := c.Fn(rule, nm)
+			if fn == nil {
+				continue
+			}
+			an.Instrs(fn, func(in ssa.Instruction) {
+				k, ok := in.(*ssa.Call)
+				if !ok {
+					return
+				}
+				var mname string
+				var recv ssa.Value
+				cc := k.Common()
+				if cc.IsInvoke() {
+					mname, recv = cc.Method.Name(), cc.Value
+				} else if f := an.StaticCallee(k); f != nil && f.Signature.Recv() != nil && an.IsDigNamed(f.Signature.Recv().Type(), "Scope") {
+					mname, recv = f.Name(), cc.Args[0]
+				} else {
+					return
+				}
+				if !strings.Contains(mname, "Providers") {
+					return
+				}
+				n++
+				cons := nm + ": " + mname + " is an all-ancestors accessor on the holder's scope"
+				good := strings.HasPrefix(mname, "getAll") && an.Norm(recv) == "p:gh.s"
+				c.Check(good, rule, cons, an.Norm(recv)+"."+mname, "cycle detection asks "+an.Norm(recv)+"."+mname+": edges to providers in other enclosing scopes (which resolution can reach) are missing from the graph, so a cycle crossing scopes is not detected and resolution recurses without bound or fails late", k, nil)
+			})
+			// Order(gh.s) for every provider: a range loop over the providers calling Order with gh.s, no early exit
+			okOrder := false
+			for _, l := range rangeLoops(fn) {
+				if !strings.Contains(l.over, "getAll") {
+					continue
+				}
+				for b := range l.body {
+					for _, in := range b.Instrs {
+						if k, ok := in.(*ssa.Call); ok && k.Common().IsInvoke() && k.Common().Method.Name() == "Order" && an.Norm(k.Common().Args[0]) == "p:gh.s" {
+							if len(l.earlyExits()) == 0 && b == l.header.Succs[0] {
+								okOrder = true
+							}
+						}
+					}
+				}
+			}
+			c.Check(okOrder, rule, nm+": every provider contributes its order in the holder's scope", "for each provider: provider.Order(gh.s)", "not every provider found contributes an edge (filter, early exit or wrong scope's order)", nil, nil)
+		}
+		c.Floor(rule, "provider accessor calls in edge computation", n, 2)
+		if fn := c.P.Func("dig.getParamOrder"); fn != nil {
+			good := false
+			an.Instrs(fn, func(in ssa.Instruction) {
+				if lk, ok := in.(*ssa.Lookup); ok && strings.HasSuffix(an.Norm(lk.X), ".(dig.paramGroupedSlice)#0.orders") && an.Norm(lk.Index) == "p:gh.s" {
+					good = true
+				}
+			})
+			c.Check(good, rule, "getParamOrder: a group parameter contributes its own node's order for the holder's scope", "p.orders[gh.s]", "the group parameter's node order is not taken for gh.s", nil, nil)
+		}
+		if fn := c.P.Func("(*dig.graphHolder).EdgesFrom"); fn != nil {
+			good := false
+			for _, l := range rangeLoops(fn) {
+				if strings.HasSuffix(l.over, ".(*dig.constructorNode)#0.paramList.Params") && len(l.earlyExits()) == 0 {
+					for b := range l.body {
+						for _, in := range b.Instrs {
+							if k, ok := in.(*ssa.Call); ok && an.CalleeName(k) == "dig.getParamOrder" && an.Norm(k.Common().Args[0]) == "p:gh" {
+								good = true
+							}
+						}
+					}
+				}
+			}
+			c.Check(good, rule, "EdgesFrom: a constructor node has the edges of all its parameters", "range w.paramList.Params: getParamOrder(gh, param)", "not every parameter of a constructor contributes edges", nil, nil)
+		}
+	}
+}
